@@ -375,3 +375,20 @@ pub fn guarded<R>(f: impl FnOnce() -> R) -> Result<R, String> {
 pub fn ip(s: &str) -> IpAddr {
     s.parse().unwrap()
 }
+
+/// Like [`guarded`] for code that runs entirely inside a turmoil-net fixture
+/// (`fixture::lo`, `ClientServer::run`): a panic that does not originate in
+/// the harness's own sources happened in the code under test, even when its
+/// reported location is inside `core` (e.g. `Duration` arithmetic).
+pub fn guarded_fixture<R>(f: impl FnOnce() -> R) -> Result<R, String> {
+    match std::panic::catch_unwind(std::panic::AssertUnwindSafe(f)) {
+        Ok(r) => Ok(r),
+        Err(p) => {
+            let msg = vcore::take_last_panic().unwrap_or_else(|| vcore::panic_message(&*p));
+            if msg.contains("netctl/src") || msg.contains("vcore/src") {
+                std::panic::resume_unwind(Box::new(msg));
+            }
+            Err(msg)
+        }
+    }
+}
